@@ -15,7 +15,6 @@ import (
 	"verif/mc/gen/generic"
 	"verif/mc/gen/repro"
 	"verif/mc/gjs"
-	"verif/mc/jsx"
 	"verif/mc/pool"
 )
 
@@ -44,7 +43,7 @@ func c17(tier string) int {
 	}
 	defer env.Close()
 	rep := env.Rep
-	exe := filepath.Join(jsx.VerifRoot(), "bin", "vcheck-mapiter")
+	exe := filepath.Join(evid.OutRoot(), "bin", "vcheck-mapiter")
 	if _, err := os.Stat(exe); err != nil {
 		fmt.Fprintln(os.Stderr, "HARNESS: bin/vcheck-mapiter missing (built by ./check with the runtime/map.go overlay)")
 		return 3
